@@ -238,10 +238,22 @@ def check_time_formats(ctx):
   ix = ctx.ix
   f = ix.func("ttconv.imsc.attributes:to_time_format")
   ctx.unit(f.module)
+  # the function that prints: to_time_format itself, or the private function of the module it hands the work to (a memo or a
+  # wrapper in front of it)
+  if sum(1 for r in own_nodes(f.node) if isinstance(r, ast.Return)) < 3:
+    for c_ in own_nodes(f.node):
+      if isinstance(c_, ast.Call) and isinstance(c_.func, ast.Name):
+        g_ = ix.resolve(f.module, c_.func, cls=None, func=f)
+        if hasattr(g_, "node") and getattr(g_, "module", None) is f.module and sum(1 for r in own_nodes(g_.node) if isinstance(r, ast.Return)) >= 3 and "from_seconds" in unparse(g_.node):
+          f = g_
+          break
   um = ix.mod("ttconv.imsc.utils")
   pats = {name: fmt.pattern_literal(ix, um, name) for name in ("_CLOCK_TIME_FRACTION_RE", "_CLOCK_TIME_FRAMES_RE", "_OFFSET_FRAME_RE")}
   sk = fmt.Skeleton(ix)
   rets = [r for r in own_nodes(f.node) if isinstance(r, ast.Return)]
+  if len(rets) < 3:
+    ctx.undecide("FMT-time", f"{f.qualname}: fewer than the three printing returns (clock time, frames, SMPTE) were found: restructured")
+    return
   ctx.floor("FMT-time", "time syntaxes printed by to_time_format", len(rets), 3)
   # clock time: str(ClockTime.from_seconds(time)) with the default '.' separator
   ct = ix.cls("ttconv.time_code:ClockTime")
@@ -278,7 +290,10 @@ def check_time_formats(ctx):
       text = f"{n_}" + "".join(lit)
       m = re.match(pats["_OFFSET_FRAME_RE"], text)
       ok = ok and m is not None and int(float(m.group(1))) == n_
-  ctx.check(ok, "FMT-time", f"{f.qualname}|frames syntax `<n>f`", ctx.where(f.module, f.node), "`<n>f` matches the frame offset pattern", "the frames syntax the writer prints is not accepted by the reader's frame-offset pattern")
+  if not fr:
+    ctx.undecide("FMT-time", f"{f.qualname}: no return of the form `<number>` + literal was found for the frames syntax (restructured)")
+  else:
+    ctx.check(ok, "FMT-time", f"{f.qualname}|frames syntax `<n>f`", ctx.where(f.module, f.node), "`<n>f` matches the frame offset pattern", "the frames syntax the writer prints is not accepted by the reader's frame-offset pattern")
   # clock time with frames: SmpteTimeCode non-drop form HH:MM:SS:FF
   tc = ix.func("ttconv.time_code:SmpteTimeCode.__str__")
   for conds, skel, rnode in sk.of_variants(tc, {}):
@@ -503,7 +518,25 @@ def check_doc_params(ctx):
                     ("display aspect ratio", "DisplayAspectRatioAttribute.set(tt_element, model_doc.get_display_aspect_ratio())"), ("frame rate", "FrameRateAttribute.set(tt_element, frame_rate)")):
     ctx.check(pat in t, "DSP-doc", f"{f.qualname}|writes the {what}", ctx.where(f.module, f.node), pat, f"TTElement.from_model no longer writes the {what} (`{pat}`)")
   # has_px is evaluated over styles AND animation steps of regions and body content
-  ctx.check("element.iter_styles()" in t and "element.iter_animation_steps()" in t and "model_doc.iter_regions()" in t and "dfs_iterator()" in t, "DSP-doc",
+  # (the scan may live in private helpers of the class: their text is read as well, two levels deep)
+  t_all = t
+  seen_h = {f.qualname}
+  frontier = [f]
+  for _lvl in range(2):
+    nxt = []
+    for g_ in frontier:
+      for c_ in own_nodes(g_.node):
+        if isinstance(c_, ast.Call):
+          r_ = ix.resolve(g_.module, c_.func, cls=g_.cls, func=g_) if isinstance(c_.func, (ast.Name, ast.Attribute)) else None
+          if r_ is None and isinstance(c_.func, ast.Attribute) and isinstance(c_.func.value, ast.Name) and c_.func.value.id in ("self", "cls") and g_.cls is not None:
+            r_ = ix.lookup_method(g_.cls, c_.func.attr)
+          if hasattr(r_, "qualname") and hasattr(r_, "node") and r_.qualname not in seen_h and getattr(r_, "module", None) is f.module and isinstance(r_.node, (ast.FunctionDef, ast.AsyncFunctionDef)) \
+              and r_.name.startswith("_"):
+            seen_h.add(r_.qualname)
+            nxt.append(r_)
+            t_all += "\n" + unparse(r_.node)
+    frontier = nxt
+  ctx.check(".iter_styles()" in t_all and ".iter_animation_steps()" in t_all and ".iter_regions()" in t_all and "dfs_iterator()" in t_all, "DSP-doc",
             f"{f.qualname}|pixel usage is searched in styles and animation steps of all regions and content", ctx.where(f.module, f.node), "all four sources scanned",
             "the search for px lengths no longer covers specified styles and animation steps of every region and content element")
 
